@@ -124,6 +124,9 @@ HistoryThm.vos HistoryThm.vok HistoryThm.required_vos: HistoryThm.v Base.vos Uni
 PlateObs.vo PlateObs.glob PlateObs.v.beautified PlateObs.required_vo: PlateObs.v Base.vo Units.vo Contents.vo Container.vo ContainerThm.vo ContainerThm2.vo Plate.vo PlateThm.vo Prog.vo HistoryThm.vo
 PlateObs.vio: PlateObs.v Base.vio Units.vio Contents.vio Container.vio ContainerThm.vio ContainerThm2.vio Plate.vio PlateThm.vio Prog.vio HistoryThm.vio
 PlateObs.vos PlateObs.vok PlateObs.required_vos: PlateObs.v Base.vos Units.vos Contents.vos Container.vos ContainerThm.vos ContainerThm2.vos Plate.vos PlateThm.vos Prog.vos HistoryThm.vos
+PlateVol.vo PlateVol.glob PlateVol.v.beautified PlateVol.required_vo: PlateVol.v Base.vo Units.vo UnitsThm.vo Contents.vo Container.vo ContainerThm.vo ContainerThm2.vo Plate.vo PlateThm.vo SizeThm.vo PlateObs.vo
+PlateVol.vio: PlateVol.v Base.vio Units.vio UnitsThm.vio Contents.vio Container.vio ContainerThm.vio ContainerThm2.vio Plate.vio PlateThm.vio SizeThm.vio PlateObs.vio
+PlateVol.vos PlateVol.vok PlateVol.required_vos: PlateVol.v Base.vos Units.vos UnitsThm.vos Contents.vos Container.vos ContainerThm.vos ContainerThm2.vos Plate.vos PlateThm.vos SizeThm.vos PlateObs.vos
 CsfThm.vo CsfThm.glob CsfThm.v.beautified CsfThm.required_vo: CsfThm.v Base.vo Units.vo UnitsThm.vo Contents.vo Container.vo ContainerThm.vo ContainerThm2.vo Plate.vo PlateThm.vo SizeThm.vo Dilute.vo Solve.vo SolveThm.vo
 CsfThm.vio: CsfThm.v Base.vio Units.vio UnitsThm.vio Contents.vio Container.vio ContainerThm.vio ContainerThm2.vio Plate.vio PlateThm.vio SizeThm.vio Dilute.vio Solve.vio SolveThm.vio
 CsfThm.vos CsfThm.vok CsfThm.required_vos: CsfThm.v Base.vos Units.vos UnitsThm.vos Contents.vos Container.vos ContainerThm.vos ContainerThm2.vos Plate.vos PlateThm.vos SizeThm.vos Dilute.vos Solve.vos SolveThm.vos
@@ -181,9 +184,9 @@ Props/C05.vos Props/C05.vok Props/C05.required_vos: Props/C05.v Base.vos Units.v
 Props/C07.vo Props/C07.glob Props/C07.v.beautified Props/C07.required_vo: Props/C07.v Base.vo Units.vo Contents.vo Container.vo ContainerThm.vo ContainerThm2.vo Plate.vo PlateThm.vo
 Props/C07.vio: Props/C07.v Base.vio Units.vio Contents.vio Container.vio ContainerThm.vio ContainerThm2.vio Plate.vio PlateThm.vio
 Props/C07.vos Props/C07.vok Props/C07.required_vos: Props/C07.v Base.vos Units.vos Contents.vos Container.vos ContainerThm.vos ContainerThm2.vos Plate.vos PlateThm.vos
-Props/C10.vo Props/C10.glob Props/C10.v.beautified Props/C10.required_vo: Props/C10.v Base.vo Units.vo Contents.vo Container.vo ContainerThm.vo ContainerThm2.vo Dilute.vo Solve.vo Plate.vo PlateThm.vo SizeThm.vo Prog.vo HistoryThm.vo PlateObs.vo
-Props/C10.vio: Props/C10.v Base.vio Units.vio Contents.vio Container.vio ContainerThm.vio ContainerThm2.vio Dilute.vio Solve.vio Plate.vio PlateThm.vio SizeThm.vio Prog.vio HistoryThm.vio PlateObs.vio
-Props/C10.vos Props/C10.vok Props/C10.required_vos: Props/C10.v Base.vos Units.vos Contents.vos Container.vos ContainerThm.vos ContainerThm2.vos Dilute.vos Solve.vos Plate.vos PlateThm.vos SizeThm.vos Prog.vos HistoryThm.vos PlateObs.vos
+Props/C10.vo Props/C10.glob Props/C10.v.beautified Props/C10.required_vo: Props/C10.v Base.vo Units.vo Contents.vo Container.vo ContainerThm.vo ContainerThm2.vo Dilute.vo Solve.vo Plate.vo PlateThm.vo SizeThm.vo Prog.vo HistoryThm.vo PlateObs.vo PlateVol.vo
+Props/C10.vio: Props/C10.v Base.vio Units.vio Contents.vio Container.vio ContainerThm.vio ContainerThm2.vio Dilute.vio Solve.vio Plate.vio PlateThm.vio SizeThm.vio Prog.vio HistoryThm.vio PlateObs.vio PlateVol.vio
+Props/C10.vos Props/C10.vok Props/C10.required_vos: Props/C10.v Base.vos Units.vos Contents.vos Container.vos ContainerThm.vos ContainerThm2.vos Dilute.vos Solve.vos Plate.vos PlateThm.vos SizeThm.vos Prog.vos HistoryThm.vos PlateObs.vos PlateVol.vos
 Props/C11.vo Props/C11.glob Props/C11.v.beautified Props/C11.required_vo: Props/C11.v Base.vo Units.vo UnitsThm.vo Contents.vo Container.vo ContainerThm.vo ContainerThm2.vo Dilute.vo DiluteThm.vo Plate.vo PlateThm.vo PlateFill.vo
 Props/C11.vio: Props/C11.v Base.vio Units.vio UnitsThm.vio Contents.vio Container.vio ContainerThm.vio ContainerThm2.vio Dilute.vio DiluteThm.vio Plate.vio PlateThm.vio PlateFill.vio
 Props/C11.vos Props/C11.vok Props/C11.required_vos: Props/C11.v Base.vos Units.vos UnitsThm.vos Contents.vos Container.vos ContainerThm.vos ContainerThm2.vos Dilute.vos DiluteThm.vos Plate.vos PlateThm.vos PlateFill.vos
